@@ -285,7 +285,7 @@ class SFile(object):
         """
         get a copy of the header
         """
-        return self._hdr
+        return copy.deepcopy(self._hdr)
 
     def get_mode(self):
         """
